@@ -222,17 +222,17 @@ SUITES = {
         repo_suite("c19-inmem", "inmem", "c01", "p_C19", {"n": 20, "shards": 6}, {"n": 150, "shards": 16}, extra=["--scribble"]),
         repo_suite("c19-ent", "ent", "c13", "p_C19", {"n": 15, "shards": 6}, {"n": 100, "shards": 16}, extra=["--scribble"]),
         cron_suite("c19-cron", "c15", "false true", "false true", {"n": 10, "shards": 4}, {"n": 60, "shards": 16}, extra=["--scribble"]),
-        vsys_suite("c19-vsys", "vall_ok", {"n": 25, "shards": 3}, {"n": 150, "shards": 16}, extra=["--scribble"]),
+        vsys_suite("c19-vsys", "vall_ok", {"n": 25, "shards": 3}, {"n": 60, "shards": 16}, extra=["--scribble"]),
     ]},
     "C03": {"suites": [sys_suite("c03-sys", "c03_ok", {"n": 25, "shards": 10}, {"n": 200, "shards": 16}),
                        sys_suite("c03-sys-faults", "c03_ok", {"n": 25, "shards": 4}, {"n": 150, "shards": 16}, extra=["--faults"]),
-                       vsys_suite("c03-vsys", "vc03_ok", {"n": 25, "shards": 4}, {"n": 200, "shards": 16})]},
+                       vsys_suite("c03-vsys", "vc03_ok", {"n": 25, "shards": 4}, {"n": 60, "shards": 16})]},
     "C04": {"gen_obligations": ["src:ent-guarded-update"], "suites": [sys_suite("c04-sys", "c04_ok", {"n": 25, "shards": 8}, {"n": 200, "shards": 16}),
                        sys_suite("c04-sys-faults", "c04_ok", {"n": 25, "shards": 6}, {"n": 150, "shards": 16}, extra=["--faults"]),
-                       vsys_suite("c04-vsys", "vc04_ok", {"n": 25, "shards": 2}, {"n": 200, "shards": 16})]},
+                       vsys_suite("c04-vsys", "vc04_ok", {"n": 25, "shards": 2}, {"n": 60, "shards": 16})]},
     "C05": {"suites": [sys_suite("c05-sys", "c05_ok", {"n": 25, "shards": 8}, {"n": 200, "shards": 16}),
                        sys_suite("c05-sys-faults", "c05_ok", {"n": 25, "shards": 6}, {"n": 150, "shards": 16}, extra=["--faults"]),
-                       vsys_suite("c05-vsys", "vc05_ok", {"n": 25, "shards": 4}, {"n": 200, "shards": 16})]},
+                       vsys_suite("c05-vsys", "vc05_ok", {"n": 25, "shards": 4}, {"n": 60, "shards": 16})]},
     "C06": {"suites": [sys_suite("c06-sys", "c06_ok", {"n": 25, "shards": 10}, {"n": 200, "shards": 16})]},
     "C20": {"suites": [sys_suite("c20-sys", "c20_ok", {"n": 25, "shards": 10}, {"n": 200, "shards": 16}, extra=["--faults"]),
                        # every placement of one fault (quick) and of two faults (thorough) over the scheduler's calls of base scenarios
